@@ -191,8 +191,11 @@ def explore(case):
               case=nc(how))
       ck = sorted(n for n in files if CKPT_RE.match(n))
       if cfg['ckpt']:
-        require(len(ck) <= max(cfg['keep'], len([n for n, _ in state if CKPT_RE.match(n)])),
-                'more than num_checkpoints_to_keep checkpoints retained after the run', cfg['keep'], ck, case=nc(how))
+        saved = any(e['kind'] == 'write' and e['name'].startswith('checkpoint_') for e in result[2])
+        # after every completed save at most `keep` checkpoints remain (a run that saves nothing may leave what it found)
+        limit = cfg['keep'] if saved else max(cfg['keep'], len([n for n, _ in state if CKPT_RE.match(n)]))
+        require(len(ck) <= limit, 'more than num_checkpoints_to_keep checkpoints retained after a run that saved a '
+                'checkpoint', limit, ck, case=nc(how))
         for n in ck:
           r = int(n.split('_')[1])
           require(h.state_digest(load_pickle(files[n])) == h.state_digest(h.ref_states[r]),
@@ -202,7 +205,7 @@ def explore(case):
 
     def run(flt):
       res, trace = h.run(flt)
-      return res, trace
+      return (res[0], res[1], trace), trace
 
     def faults_for(trace, depth):
       out = []
